@@ -448,3 +448,133 @@ Proof using Hcfg.
     rewrite !rd32_le32 in E' by (unfold is_u32, W32 in *; nia). exact E'. }
   nia.
 Qed.
+End Bridge.
+
+Lemma Forall2_last {A B} (R : A -> B -> Prop) l a m b :
+  Forall2 R (l ++ [a]) (m ++ [b]) -> R a b.
+Proof.
+  intros H. apply Forall2_app_inv_l in H as (m1 & m2 & H1 & H2 & E).
+  inversion H2 as [|? y ? l2 Hab Hnil]; subst. inversion Hnil; subst.
+  apply app_inj_tail in E as [_ <-]. exact Hab.
+Qed.
+
+(* ================================================================ (c) the decoder hypothesis, proved *)
+Theorem rs_dec_sound (K : crypto) (c : cipher) d p off e0 st0 :
+  FecSpec.cfg_ok d p -> fec_new d p off = Some e0 -> 0 <= off -> Fec.dec_new d p = Some st0 ->
+  dec_sound rs_enc K c Fec.fecdec rdec_decode e0 st0.
+Proof.
+  intros Hcfg Hnew Hoff Hdn hist h b Hd Hnw Hok. cbv zeta. intros Hin r pl Hr Hp.
+  set (all := hist_payloads hist) in *.
+  pose proof (binv_new d p Hcfg all off e0 Hnew Hoff) as Hb0.
+  pose proof Hb0 as (_ & Hp0 & Hpw0 & _ & Hnx0 & _).
+  assert (Hgb : group_bound d p all).
+  { apply (group_bound_of_no_wrap d p Hcfg). destruct Hnw as [_ Hnw].
+    rewrite Hp0, Hpw0, Hnx0 in Hnw. cbn [length] in Hnw.
+    rewrite Z.mod_0_l in Hnw by (pose proof (paws_facts d p Hcfg); lia). lia. }
+  pose proof (bridge_run d p Hcfg all Hok (aead_extra K c) hist e0 0%nat [] Hb0 Hd eq_refl Hgb) as Hbr.
+  rewrite Forall_forall in Hbr.
+  assert (Hgen : Forall (FecSpec.genuine (Rs.rs_codec d p) d p (book d all)) (h ++ [b])).
+  { eapply Forall_impl; [|exact Hin]. intros x [Hx _]. destruct (Hbr x Hx) as (g & i & Hg & _).
+    exists g, i. exact Hg. }
+  destruct (KV.Fec.FecTheorems.t_c07_only_originals Rs.rs_codec d p (book d all) Hcfg (Hmds d p Hcfg)
+              (book_ok d all Hok) (h ++ [b]) Hgen) as (st0' & st' & outs & Hdn' & Hrun & HF2).
+  rewrite Hdn in Hdn'. inversion Hdn'; subst st0'.
+  destruct (run_dec_snoc _ _ _ _ _ _ Hrun) as (st1 & outs1 & out & E1 & E2 & ->).
+  rewrite (run_dec_after h st0 st1 outs1 E1) in Hr. unfold rdec_decode in Hr. rewrite E2 in Hr. cbn [snd] in Hr.
+  destruct (Forall2_last _ _ _ _ _ HF2 r Hr) as (g & i & Hga & k & Hk & _ & Hstrip).
+  rewrite (rec_payload_strip r pl Hp) in Hstrip. inversion Hstrip as [Hpl].
+  apply Forall_app in Hin as [_ Hinb]. apply Forall_inv in Hinb as [Hbin _].
+  destruct (Hbr b Hbin) as (g' & i' & Hg' & Hne).
+  rewrite (genuine_group d p Hcfg all g i g' i' b Hga Hg').
+  apply (book_in d p Hcfg all g'); [exact Hne|].
+  apply nth_In. destruct (book_ok d all Hok g') as [Hl _]. rewrite Hl. exact Hk.
+Qed.
+
+(* ================================================================ (d) the session theorems, no decoder hypothesis *)
+Lemma cipher_hdr_nonneg K c (nonce : nat -> bytes) : nonce_ok K c nonce -> 0 <= cipher_hdr K c.
+Proof.
+  intros H. specialize (H 0%nat). pose proof (blen_nonneg (nonce 0%nat)) as Hn.
+  destruct c; unfold cipher_hdr, nonce_len, c_cryptHeaderSize in *; lia.
+Qed.
+
+Section Final.
+Variable K : crypto.
+Variable c : cipher.
+Variable nonce : nat -> bytes.
+Hypothesis laws : cipher_laws K c.
+Hypothesis nonces : nonce_ok K c nonce.
+
+Local Notation psys := (Pipe.psys Fec.fecdec).
+Local Notation psys_run := (Pipe.psys_run rs_enc K c nonce Fec.fecdec rdec_new rdec_decode).
+Local Notation proj := (Pipe.proj Fec.fecdec).
+Local Notation proj_evs := (Pipe.proj_evs rs_enc K c nonce Fec.fecdec rdec_new rdec_decode).
+Local Notation deliver_feeds := (Pipe.deliver_feeds K c Fec.fecdec rdec_new rdec_decode).
+Local Notation framed := (Pipe.framed K c).
+
+(* the two sessions are configured alike: the writer's encoder is the fresh
+   newFECEncoder(d, p, headerOffset), the reader's decoder the fresh newFECDecoder(d, p) *)
+Definition rs_configured (d p : Z) (e0 : fecenc) (s0 : psys) : Prop :=
+  FecSpec.cfg_ok d p /\ pfe _ s0 = Some e0 /\ sess_fec_new K c d p = Some e0 /\
+  exists st0, rx_dec _ _ (pB _ s0) = Some st0 /\ Fec.dec_new d p = Some st0.
+
+Lemma rs_configured_sound d p e0 s0 :
+  rs_configured d p e0 s0 ->
+  pfe _ s0 = Some e0 /\
+  dec_sound rs_enc K c Fec.fecdec rdec_decode e0 (dec_cur Fec.fecdec rdec_new (pB _ s0)).
+Proof using nonces.
+  intros (Hcfg & Hfe & Hnew & st0 & Hrx & Hdn). split; [exact Hfe|].
+  unfold dec_cur. rewrite Hrx.
+  exact (rs_dec_sound K c d p (cipher_hdr K c) e0 st0 Hcfg Hnew (cipher_hdr_nonneg K c nonce nonces) Hdn).
+Qed.
+
+Theorem pipe3_run_projects d p e0 s0 evs s :
+  psys_init Fec.fecdec s0 -> rs_configured d p e0 s0 -> psys_run s0 evs s ->
+  fec_no_wrap e0 (cwire _ s) -> fec_fits (cwire _ s) ->
+  sys_init (proj s0) /\ sys_run (proj s0) (proj_evs s0 evs) (proj s) /\
+  (forall i, Forall (fun f : bytes * Z => In (fst f) (cwire _ s)) (deliver_feeds s i)) /\
+  (forall i w, nth_error (swire _ s) i = Some w ->
+     exists body, framed w body /\
+       let recs := snd (rdec_decode (dec_cur Fec.fecdec rdec_new (pB _ s)) body) in
+       ((exists seqid dg, body = data_body seqid dg /\ In dg (cwire _ s) /\
+           (deliver_feeds s i = [] \/
+            deliver_feeds s i = (dg, c_IKCP_PACKET_REGULAR) :: flat_map rec_feed recs)) \/
+        (is_parity_body body /\
+           (deliver_feeds s i = [] \/ deliver_feeds s i = flat_map rec_feed recs)))).
+Proof using laws nonces.
+  intros Hi Hc Hrun Hnw Hfit. destruct (rs_configured_sound d p e0 s0 Hc) as (Hfe & Hsound).
+  exact (pipe2_run_projects rs_enc K c nonce Fec.fecdec rdec_new rdec_decode laws nonces
+           s0 evs s e0 Hi Hfe Hsound Hrun Hnw Hfit).
+Qed.
+
+Theorem pipe3_stream_prefix d p e0 s0 evs s :
+  psys_init Fec.fecdec s0 -> rs_configured d p e0 s0 -> psys_run s0 evs s ->
+  fec_no_wrap e0 (cwire _ s) -> fec_fits (cwire _ s) ->
+  stream (pA _ s0) <> 0 -> no_wrap (sg_numbered (pgA _ s)) ->
+  is_prefix (concat (rg_delivered (pgB _ s))) (concat (sg_accepted (pgA _ s))).
+Proof using laws nonces.
+  intros Hi Hc Hrun Hnw Hfit. destruct (rs_configured_sound d p e0 s0 Hc) as (Hfe & Hsound).
+  exact (pipe2_stream_prefix rs_enc K c nonce Fec.fecdec rdec_new rdec_decode laws nonces
+           s0 evs s e0 Hi Hfe Hsound Hrun Hnw Hfit).
+Qed.
+
+Theorem pipe3_message_prefix d p e0 s0 evs s :
+  psys_init Fec.fecdec s0 -> rs_configured d p e0 s0 -> psys_run s0 evs s ->
+  fec_no_wrap e0 (cwire _ s) -> fec_fits (cwire _ s) ->
+  stream (pA _ s0) = 0 -> no_wrap (sg_numbered (pgA _ s)) ->
+  is_prefix (rg_delivered (pgB _ s)) (sg_accepted (pgA _ s)).
+Proof using laws nonces.
+  intros Hi Hc Hrun Hnw Hfit. destruct (rs_configured_sound d p e0 s0 Hc) as (Hfe & Hsound).
+  exact (pipe2_message_prefix rs_enc K c nonce Fec.fecdec rdec_new rdec_decode laws nonces
+           s0 evs s e0 Hi Hfe Hsound Hrun Hnw Hfit).
+Qed.
+
+Theorem pipe3_run_safe d p e0 s0 evs s :
+  psys_init Fec.fecdec s0 -> rs_configured d p e0 s0 -> psys_run s0 evs s ->
+  fec_no_wrap e0 (cwire _ s) -> fec_fits (cwire _ s) ->
+  inv (pA _ s) /\ inv (rx_core _ _ (pB _ s)).
+Proof using laws nonces.
+  intros Hi Hc Hrun Hnw Hfit. destruct (rs_configured_sound d p e0 s0 Hc) as (Hfe & Hsound).
+  exact (pipe2_run_safe rs_enc K c nonce Fec.fecdec rdec_new rdec_decode laws nonces
+           s0 evs s e0 Hi Hfe Hsound Hrun Hnw Hfit).
+Qed.
+End Final.
